@@ -111,7 +111,8 @@ Definition delete_block (c : circuit) (b : label) : res circuit :=
 
 (* blocks = list(self.blocks.values()); for block in blocks: if label in gates or inputs: delete_block *)
 Definition drop_blocks_mentioning (c : circuit) (l : label) : circuit :=
-  set_blocks c (filter (fun kb => negb (memb l (bgates (snd kb)) || memb l (binputs (snd kb)))) (blocks c)).
+  set_blocks c (filter (fun kb => negb (memb l (bgates (snd kb)) || memb l (binputs (snd kb))
+                                        || memb l (boutputs (snd kb)))) (blocks c)).
 
 (* ---- _remove_gate ---- *)
 Definition remove_gate_raw (c : circuit) (l : label) : res circuit :=
